@@ -31,6 +31,7 @@ Inductive sop :=
 | SInc (t : Z) | SDec (t : Z) (tol : tolarg) | SSetDeg (d : Z)
 | SSetP (P : list pt) | SSetW (W : option (list Q))
 | SClean | SKnotClean | SDegClean
+| SFit            (* curve.fit_curve(rational source): a mutator outside the exact model *)
 | SPure.          (* evaluation, arithmetic, ==, split, fraction, copy, Derivate, Integrate, fitting ANOTHER curve to it, ... *)
 
 (* (target curve, operation, outcome, states of all curves afterwards, states of the KnotVector objects the curves
